@@ -33,6 +33,7 @@ RULE = (
     "written by a genuine set() for that key; then the run history continues and must stay transparent. Non-trivial: "
     ">= 1 hit observed or >= 1 fault injected; distinct = (program shape, backend, history / fault class)."
     ' Directed histories: one function behind two cached nodes that differ in their emit name only (two graphs, one cache); list/tuple/set/frozenset/dict arguments with equal members; a size-limited backend where the oldest entry is read just before an insertion (documented LRU).'
+    ' Also: pairs of DIFFERENT definitions behind otherwise identical cached nodes (referenced global / attribute / method names, parameter roles, constants, defaults, bodies of inner lambdas / functions / comprehensions, operators, closure values), with and without retrievable source, both orders, memory and disk.'
 )
 ASSUMPTIONS = [
     "diskcache/sqlite3/pickle/hmac behave as documented; how hypergraph uses them is in scope",
